@@ -1,0 +1,53 @@
+//go:build verif
+
+package tls
+
+import "sync"
+
+// VerifKeyExchange lets a test server answer a TLS 1.3 key share of a hybrid group the in-tree server does not
+// implement. ECDHPart names the classical curve and the classical part of the client's share; HybridPart receives
+// the client's whole share, the server's classical public key and the classical shared secret, and returns the
+// server's key_exchange value and the shared secret handed to the key schedule.
+type VerifKeyExchange struct {
+	ECDHPart   func(g CurveID, clientShare []byte) (CurveID, []byte)
+	HybridPart func(g CurveID, clientShare, serverPub, shared []byte) (share []byte, secret []byte, err error)
+}
+
+var (
+	verifKXMu sync.Mutex
+	verifKX   = map[*Config]*VerifKeyExchange{}
+)
+
+// VerifSetKeyExchange must be called before the Config is used by a server.
+func VerifSetKeyExchange(cfg *Config, kx *VerifKeyExchange) {
+	verifKXMu.Lock()
+	verifKX[cfg] = kx
+	verifKXMu.Unlock()
+}
+
+func verifECDHPart(hs *serverHandshakeStateTLS13, g CurveID, data []byte) (CurveID, []byte) {
+	verifKXMu.Lock()
+	kx := verifKX[hs.c.config]
+	verifKXMu.Unlock()
+	if kx != nil && kx.ECDHPart != nil {
+		return kx.ECDHPart(g, data)
+	}
+	return g, data
+}
+
+func verifHybridPart(hs *serverHandshakeStateTLS13, g CurveID, clientShare []byte) error {
+	verifKXMu.Lock()
+	kx := verifKX[hs.c.config]
+	verifKXMu.Unlock()
+	if kx == nil || kx.HybridPart == nil {
+		return nil
+	}
+	share, secret, err := kx.HybridPart(g, clientShare, hs.hello.serverShare.data, hs.sharedKey)
+	if err != nil {
+		return err
+	}
+	if share != nil {
+		hs.hello.serverShare.data, hs.sharedKey = share, secret
+	}
+	return nil
+}
